@@ -720,3 +720,51 @@ func c13DefUse(c *Ctx) {
 }
 
 var foreignTypeName = regexp.MustCompile(`((Field|Fields@|Fields\[\d+\])\.(Message|Enum)|ValueMessage|ElementType|\.Input|\.Output)\.GoIdent\.GoName$`)
+
+// bareForeignTypeNames: holes in type position (&T{, *T, []T, map[K]T, new(T)) of the given unit roots that print a
+// field's / method's message or enum type by its bare GoName instead of the GoIdent protogen qualifies and imports.
+func bareForeignTypeNames(c *Ctx, rid string, roots []RootInfo) {
+	r := c.R
+	type agg struct{ pos, ex string }
+	bare := map[string]agg{}
+	okIdent := 0
+	for _, ri := range roots {
+		ex := c.Explore(ri.Fn, 1, 6000)
+		for _, v := range ex.Variants {
+			for _, u := range v.Units {
+				for _, l := range u.Lines {
+					text := lineText(l.Segs)
+					offset := 0
+					for si, sg := range l.Segs {
+						if sg.Hole == nil {
+							offset += len(sg.Const)
+							continue
+						}
+						before := text[:offset]
+						offset += len(HoleName(sg.Hole))
+						if strings.Count(before, `"`)%2 == 1 || strings.Contains(before, "//") || si == 0 || l.Segs[si-1].Hole != nil {
+							continue
+						}
+						prev := l.Segs[si-1].Const
+						if !(strings.HasSuffix(prev, "&") || strings.HasSuffix(prev, "*") || strings.HasSuffix(prev, "]") || strings.HasSuffix(prev, "new(")) {
+							continue
+						}
+						if strings.HasSuffix(strings.TrimRight(before, "*"), "map[") {
+							continue // map key position: scalars only
+						}
+						ek := eraseIters(sg.Hole.Key)
+						if foreignTypeName.MatchString(ek) {
+							bare[pkgShort(ri.Pkg)+" *"+ri.Suffix+" names the type "+ek+" by its bare GoName"] = agg{c.P.Pos(l.Pos), holeFree(text)}
+						} else if sg.Hole.GoIdent {
+							okIdent++
+						}
+					}
+				}
+			}
+		}
+	}
+	for _, k := range sortedKeys(bare) {
+		r.Bad(rid, k, bare[k].pos, "a type that may be declared in another Go package is printed by its bare GoName: protogen qualifies and imports only a GoIdent, so for an imported type the emitted file refers to an undefined identifier and does not compile (emitted: "+bare[k].ex+")", nil)
+	}
+	r.OKd(rid, "type references printed as GoIdent", "", map[string]any{"sites": okIdent, "bare": len(bare)})
+}
